@@ -338,6 +338,73 @@ func (h *H) faultyTx(kind string, set map[ctypes.OutPoint]uinfo, spent map[ctype
 			val += good.u.val
 		}
 		return mk(ins, val)
+	case "sibling": // several inputs on ONE parent transaction: unspent ones before / after / around an already spent one
+		type sp struct {
+			op    ctypes.OutPoint
+			owner int
+			val   common.Fixed64
+		}
+		var cands []sp
+		for op := range spent {
+			id, ok := h.txID[op.TxID]
+			if !ok {
+				continue
+			}
+			for _, x := range h.txs {
+				if x.id == id && int(op.Index) < len(x.outs) && x.outs[op.Index].val >= 2000 {
+					for i := range x.outs { // the parent still has an unspent output on this chain
+						if u, ok := set[ctypes.OutPoint{TxID: op.TxID, Index: uint16(i)}]; ok && !(u.cb && parent.height-u.lock < h.F.Params.PowConfiguration.CoinbaseMaturity) {
+							cands = append(cands, sp{op, x.outs[op.Index].addr, x.outs[op.Index].val})
+							break
+						}
+					}
+				}
+			}
+		}
+		if len(cands) == 0 {
+			return nil
+		}
+		sort.Slice(cands, func(i, j int) bool {
+			if c := bytes.Compare(cands[i].op.TxID[:], cands[j].op.TxID[:]); c != 0 {
+				return c < 0
+			}
+			return cands[i].op.Index < cands[j].op.Index
+		})
+		c := cands[h.Rng.Intn(len(cands))]
+		var free []fixture.In
+		var freeVal []common.Fixed64
+		for _, k := range sortedCands(set) {
+			if k.op.TxID == c.op.TxID {
+				free = append(free, fixture.In{Op: k.op, Key: k.u.addr})
+				freeVal = append(freeVal, k.u.val)
+			}
+		}
+		bad := fixture.In{Op: c.op, Key: c.owner}
+		total := c.val + freeVal[0]
+		var ins []fixture.In
+		switch h.Rng.Intn(4) {
+		case 0:
+			ins = []fixture.In{free[0], bad} // the spent one inherits the verdict of its unspent sibling
+		case 1:
+			ins = []fixture.In{bad, free[0]}
+		case 2:
+			ins = []fixture.In{free[0], bad}
+			if len(free) > 1 {
+				ins = append(ins, free[1])
+				total += freeVal[1]
+			}
+		default:
+			ins = []fixture.In{free[0]}
+			if len(free) > 1 {
+				ins = append(ins, free[1])
+				total += freeVal[1]
+			}
+			ins = append(ins, bad)
+		}
+		if total < 3000 {
+			return nil
+		}
+		return mk(ins, total)
 	case "dupin", "dupinseq": // the same outpoint twice in one transaction (second one possibly with another Sequence)
 		if good == nil {
 			return nil
@@ -725,6 +792,10 @@ func eqU16(a, b []uint16) bool {
 func (h *H) Random(steps int) {
 	for s := 0; s < steps; s++ {
 		tip := h.tip()
+		if h.Rng.Chance(15) {
+			h.F.DropTxCache() // node restart / cache trim: the following lookups miss the TxCache
+			h.note("tx cache dropped")
+		}
 		r := h.Rng.Intn(100)
 		switch {
 		case r < 50: // extend the tip with a valid block
@@ -752,13 +823,19 @@ func (h *H) Random(steps int) {
 				if nb == nil {
 					nb = h.validBlock(cur, h.Rng.Intn(4))
 				}
-				if err := h.Process(nb); err != nil {
+				var err error
+				if h.Rng.Chance(50) {
+					err = h.ProcessDuringLookup(nb)
+				} else {
+					err = h.Process(nb)
+				}
+				if err != nil {
 					break
 				}
 				cur = nb
 			}
 		case r < 82: // an invalid block at the tip
-			kinds := []string{"spent", "dupin", "dupinseq", "unknown", "oor", "immature", "dupblock", "dupblockseq", "dupblockseq", "dupcoinbase", "sameblock", "duptx"}
+			kinds := []string{"spent", "sibling", "sibling", "dupin", "dupinseq", "unknown", "oor", "immature", "dupblock", "dupblockseq", "dupblockseq", "dupcoinbase", "sameblock", "duptx"}
 			if nb := h.faultyBlock(tip, kinds[h.Rng.Intn(len(kinds))]); nb != nil {
 				h.Process(nb)
 			}
@@ -779,12 +856,25 @@ func (h *H) Random(steps int) {
 						in := tx.Inputs()[h.Rng.Intn(len(tx.Inputs()))].Previous
 						u := set[in]
 						h.tag++
-						tx2, _ := h.F.Transfer([]fixture.In{{Op: in, Key: u.addr}}, []fixture.Out{{Key: h.Rng.Intn(4), Value: u.val - 700}}, uint64(h.ID)<<32|h.tag)
+						ins2 := []fixture.In{{Op: in, Key: u.addr}}
+						val2 := u.val
+						for _, k := range sortedCands(set) { // a free output of the same parent before / after the claimed one
+							if k.op.TxID == in.TxID && !used[k.op] && h.Rng.Chance(60) {
+								if h.Rng.Bool() {
+									ins2 = append([]fixture.In{{Op: k.op, Key: k.u.addr}}, ins2...)
+								} else {
+									ins2 = append(ins2, fixture.In{Op: k.op, Key: k.u.addr})
+								}
+								val2 += k.u.val
+								break
+							}
+						}
+						tx2, _ := h.F.Transfer(ins2, []fixture.Out{{Key: h.Rng.Intn(4), Value: val2 - 700}}, uint64(h.ID)<<32|h.tag)
 						h.Submit(tx2, "conflict")
 					}
 				}
 			case 2:
-				if tx := h.faultyTx([]string{"spent", "dupin", "unknown", "oor"}[h.Rng.Intn(4)], set, spent, tip); tx != nil {
+				if tx := h.faultyTx([]string{"spent", "sibling", "sibling", "dupin", "unknown", "oor"}[h.Rng.Intn(6)], set, spent, tip); tx != nil {
 					h.Submit(tx, "invalid")
 				}
 			case 3: // mine what is in the pool
